@@ -22,7 +22,8 @@ def termTarget (kind : String) : St × Exc × Option ExitStatus :=
   else if kind == "stop" then (Src.stopState, Src.stopExc, Src.stopSetsExit)
   else (Src.haltState, Src.haltExc, Src.haltSetsExit)
 
-/-- what the request coroutines store BEFORE the state assignment (abort: reason and exit status) -/
+/-- what the request coroutines store right AFTER the state assignment succeeded (abort: reason and exit status);
+    a refused request (TransitionError) stores nothing -/
 def termPrep (s : EState) (kind reason : String) : EState :=
   let s := { s with interrupted := true }
   if kind == "abort" then { s with reason := reason, exitStatus := (termTarget kind).2.2.getD s.exitStatus } else s
@@ -38,7 +39,7 @@ def termAfter (s : EState) (kind : String) (wasPaused : Bool) : EState :=
 def requestTerminate (s : EState) (kind : String) (reason : String := "requested") : EState :=
   if s.state == .idle then refuse s kind else
   match setState (termPrep s kind reason) (termTarget kind).1 with
-  | .error _ => refuse (termPrep s kind reason) kind
+  | .error _ => refuse s kind
   | .ok s' => termAfter s' kind (s.state == .paused)
 
 /-- second half of `_request_suspend`: push the `_start_suspender` message and, unless paused, go to
